@@ -67,6 +67,8 @@ except ImportError:
 try:
     import gen_journal
     MODULES['Journal'] = gen_journal.generate
+    MODULES['JournalSkel'] = gen_journal.generate_skel
+    MODULES['JournalSkelMutants'] = gen_journal.generate_skel_mutants
 except ImportError:
     pass
 try:
